@@ -1,7 +1,7 @@
 //vp:property C16
 //vp:pkg ./tsdb/index
 //vp:roots ./storage github.com/bboreham/go-loser
-//vp:bounds postings algebra: Intersect, Merge (loser tree) and Without over 2..3 list postings (Without: 2; the Seek harness uses 2 lists in quick) of <=2 refs each (thorough 3), refs symbolic strictly increasing uint64 >= 1; consumed by Next, or by Seek(x) with arbitrary x >= 1 followed by Next
+//vp:bounds postings algebra: Intersect, Merge (loser tree) and Without over 2..3 list postings (Without: 2; the Seek harness uses 2 lists in quick) of <=2 refs each (thorough: 3 refs for 2 lists), refs symbolic strictly increasing uint64 >= 1; consumed by Next, or by Seek(x) with arbitrary x >= 1 followed by Next
 //vp:assume series references are < 2^63 (Merge's loser tree uses MaxUint64 as its end-of-list sentinel: a series with that reference would be dropped - recorded as an observation outside the bounds)
 //vp:assume series references are >= 1 and strictly increasing within a postings list; Seek targets >= 1 (listPostings.Seek(0) on a fresh iterator reports At()==0; references start at 1)
 package index
@@ -18,6 +18,9 @@ func vpXLists(kQuick int) [][]storage.SeriesRef {
 		kHi, nHi = 3, 3
 	}
 	k := vpShape("k", 2, kHi)
+	if vpThorough() && k >= 3 {
+		nHi = 2 // thorough: 2 lists of up to 3 refs, or 3 lists of up to 2 (3x3 ran past the wall budget)
+	}
 	ls := make([][]storage.SeriesRef, k)
 	for i := range ls {
 		n := vpShape("n", 0, nHi)
